@@ -28,6 +28,13 @@ func TestReplay(t *testing.T) {
 	} else if err := json.Unmarshal(b, prog); err != nil {
 		t.Fatal(err)
 	}
+	// special case shapes first (registered from any file, independent of init order)
+	for _, a := range replayAlts {
+		if a.prop == prog.Property && a.match(prog) {
+			a.run(t, prog)
+			return
+		}
+	}
 	run, ok := replayers[prog.Property]
 	if !ok {
 		t.Fatalf("no replayer for property %q", prog.Property)
@@ -36,6 +43,18 @@ func TestReplay(t *testing.T) {
 }
 
 var replayers = map[string]func(t *testing.T, prog *Program){}
+
+type replayAlt struct {
+	prop  string
+	match func(p *Program) bool
+	run   func(t *testing.T, prog *Program)
+}
+
+var replayAlts []replayAlt
+
+func hasAux(key string) func(p *Program) bool {
+	return func(p *Program) bool { _, ok := p.Aux[key]; return ok }
+}
 
 // guardT is guard for plain testing.T (replays): panics become failures.
 func guardT(t *testing.T, prog *Program, body func()) {
